@@ -6,8 +6,8 @@
 package main
 
 import (
-	"math"
 	"fmt"
+	"math"
 	"reflect"
 	"sort"
 	"strings"
